@@ -28,7 +28,7 @@ CLAIMED = {
     },
     "C03": {
         "technique": "Coq proof (structural case analysis of every operation + chunk disjointness invariant) + allocator-ledger correspondence",
-        "text": "C03_frees / C03_no_early_free / C03_held_disjoint_from_static: only reset and drop give blocks back, exactly the ones they should, each recorded with the layout it was requested with; held blocks are pairwise disjoint and disjoint from the static. Whole histories: C03_ledger (multiset conservation: held at start + obtained = freed + still held) / C03_all_returned_after_drop / C03_only_obtained_blocks_are_freed. " + ARENA_TEXT + "The tracking allocator's ledger (apply_frees, extracted) is checked on every run, under fault plans.",
+        "text": "C03_frees / C03_no_early_free / C03_held_disjoint_from_static: only reset and drop give blocks back, exactly the ones they should, each recorded with the layout it was requested with; held blocks are pairwise disjoint and disjoint from the static. Whole histories: C03_ledger (multiset conservation: held at start + obtained = freed + still held) / C03_all_returned_after_drop / C03_only_obtained_blocks_are_freed. " + ARENA_TEXT + "The tracking allocator's ledger (apply_frees, extracted) is checked on every run, under fault plans. C03_source_frames (the statements of lib.rs that give memory back — the chunk-list walk, Drop, the sentinel test by address, set_ptr sparing the sentinel, reset's walk — pinned as text and re-checked on every run).",
         "design_ref": "DESIGN.md §6 C03",
     },
     "C06": {
@@ -43,7 +43,7 @@ CLAIMED = {
     },
     "C09": {
         "technique": "Coq proof (termination of the candidate loop by a halving measure, absence of the overflow panics, error-is-no-op) + correspondence under fault plans with a hang guard",
-        "text": "C09_try_total / C09_loop_terminates / C09_err_is_noop. " + ARENA_TEXT + "Every fallible call is run under catch_unwind and fault plans (fail k-th, fail above a size, fail all); a call that does not return is detected by the hang guard / timeout. Partial: the infallible-iff-fallible clause is by construction of the model (one operation, two result mappings) and checked only by correspondence.",
+        "text": "C09_try_total / C09_loop_terminates / C09_err_is_noop. " + ARENA_TEXT + "Every fallible call is run under catch_unwind and fault plans (fail k-th, fail above a size, fail all); a call that does not return is detected by the hang guard / timeout. Partial: the infallible-iff-fallible clause is by construction of the model (one operation, two result mappings) and checked only by correspondence. C06_source_frames / C06_source_reset_accounting (reset's statements pinned as text; the value it assigns to allocated_bytes parsed from lib.rs and proved equal to the model's).",
         "design_ref": "DESIGN.md §6 C09",
     },
     "C10": {
